@@ -83,6 +83,9 @@ def build_corpus(tier, rng):
         c.add_q(k, "iterops", ["0:b"] * (n + 2), note="drain-back")
         c.add_q(k, "iterops", ["0:n", "0:u0", "0:u1", "0:b", "0:u0", "0:n", "0:u2", "0:l"], note="mixed-back")
         c.add_q(k, "iterops", ["0:b", "0:u1", "0:u0", "0:n", "0:l", "0:u0", "0:u0"], note="mixed-back")
+        # a CLONE taken after items were yielded from both ends continues from there (nothing comes back), whatever std method consumes it
+        c.add_q(k, "iterops", ["0:n", "0:b", "c0", "1:l", "1:G", "1:b", "1:n", "0:R", "0:K", "0:Z"], note="clone")
+        c.add_q(k, "iterops", ["0:b", "0:b", "c0", "1:n", "1:b", "1:l", "c1", "2:D", "0:E", "0:l"], note="clone")
         # "each exactly once" also after a jump past the end: nothing is yielded again, from either end (C05 covers the contract in depth)
         M = 2 ** 64 - 1
         c.add_q(k, "iterops", ["0:n", "0:t%d" % M, "0:l", "0:n", "0:b", "0:l"], note="past-the-end")
